@@ -88,6 +88,9 @@ func refCoerce(t *Ty, v hx.Sexp) (hx.Sexp, bool) {
 		if tag(v) == "enum" {
 			for _, n := range t.Vals {
 				if n == v.List[1].Atom {
+					if nilValued(t.Name, n) {
+						return hx.A("nil"), true // the Go value the schema declares for it
+					}
 					return v, true
 				}
 			}
